@@ -56,6 +56,10 @@ def explore(chk, c_exe, m_exe):
     chk.extra["random_max_live"] = live
     vlib.run_scripts(chk, heap, c_exe, m_exe, rnd, heap.oracle)
     vlib.run_scripts(chk, heap, c_exe, m_exe, heap.clear_scripts(chk.rng, 9 if quick else 33), heap.oracle)
+    # large heaps (depth >= 17): every step checked inside the harness, pop order compared with the model
+    bulk = heap.bulk_scripts(chk.rng, quick)
+    chk.extra["bulk"] = [sc[0] for sc in bulk]
+    vlib.run_scripts(chk, heap, c_exe, m_exe, bulk, heap.oracle)
 
 
 def search_near(chk, c_exe, m_exe):
